@@ -218,6 +218,13 @@ impl Walrus {
             let mut info = info_arc.write().map_err(|_| {
                 io::Error::new(io::ErrorKind::Other, "col info write lock poisoned")
             })?;
+            // The column lock was released since the sealed chain was inspected. If the
+            // writer sealed a block in between, its entries come before anything in the
+            // new active block: go back and read the sealed chain first.
+            if info.cur_block_idx < info.chain.len() {
+                drop(info);
+                continue;
+            }
             if let Some((tail_block_id, tail_off)) = persisted_tail {
                 if tail_block_id != active_block.id {
                     if let Some(idx) = info
